@@ -6,8 +6,8 @@ from gen import mibgen
 from props import parse_common as pc
 
 LEVEL = 'proof'
-MODULES = ['Pysmi.Props.C02', 'Pysmi.Pins.Lex']
-LAKE_TARGETS = ['Pysmi.Props.C02', 'Pysmi.Pins.Lex']
+MODULES = ['Pysmi.Props.C02', 'Pysmi.Props.C02Macro', 'Pysmi.Pins.Lex']
+LAKE_TARGETS = ['Pysmi.Props.C02', 'Pysmi.Props.C02Macro', 'Pysmi.Pins.Lex']
 THEOREMS = [
     'Pysmi.LR.C02_lr_sound',
     'Pysmi.LR.C02_no_accept_past_lexer_error',
@@ -16,6 +16,8 @@ THEOREMS = [
     'Pysmi.Lexer.C02_separator_irrelevant',
     'Pysmi.Lexer.C02_exports_opaque',
     'Pysmi.Lexer.C02_choice_opaque',
+    'Pysmi.Lexer.C02_macro_opaque',
+    'Pysmi.Lexer.scan_macro',
     'Pysmi.Lexer.C02_number_value',
     'Pysmi.Py.C02_list_append_in_order',
     'Pysmi.Py.list_builder_fold',
@@ -26,14 +28,14 @@ THEOREMS = [
     'Pysmi.Pins.Lex.pin_ignore',
 ]
 TECHNIQUE = ('Lean 4 theorems: generic LR soundness (accepted token list = frontier of the derivation tree, any tables), lexer lemmas '
-             '(blanks, comments and whole separators are skipped leaving only the line counter changed; EXPORTS/CHOICE bodies are opaque; '
+             '(blanks, comments and whole separators are skipped leaving only the line counter changed; EXPORTS/CHOICE/MACRO bodies are opaque; '
              'number tokens carry the denoted integer), list-builder action lemma; productions, LALR tables and action bodies regenerated from '
              'the source on every run and interpreted by the model; correspondence of tokens and complete syntax trees against PLY and the '
              'real parser in all three dialects; layout-invariance oracle')
 LEVEL_TEXT = ('Proved in Lean: for arbitrary LR tables the tree built for an accepted text has exactly the text\'s token list as frontier, in '
               'order (no token dropped, duplicated or reordered, any length); blanks (space, tab, LF, CR, CRLF) and `--` comments between '
               'tokens are skipped by the lexer without producing tokens, changing only the line counter, so any separator can be replaced by '
-              'any other; the contents of EXPORTS and CHOICE blocks do not reach the token stream; decimal number tokens carry the integer '
+              'any other; the contents of EXPORTS, CHOICE and MACRO blocks do not reach the token stream (MACRO: any body free of END; after it the END token, then the text that follows); decimal number tokens carry the integer '
               'their digits denote; the left-recursive list builders append in source order. The complete syntax tree (every clause field) '
               'is not proved correct against a typed grammar: it is computed by interpreting action bodies translated from the p_* sources on '
               'every run and compared with the real parser\'s tree on generated modules (all clause kinds, optional parts on/off, lists, '
